@@ -148,3 +148,214 @@ func c09FlightFacts(r *Repo) []Fact {
 	}
 	return []Fact{f}
 }
+
+// ---- locks that live on the compiled object ----
+//
+//   compiledObjectSync : List String   synchronisation objects that every run of ONE compiled object
+//     would share, in the packages of c09SyncPkgs:
+//       field     a struct field whose type is a channel or sync.Mutex / RWMutex / Cond / WaitGroup
+//                 (pointer or value), in any struct type except the per-run types (c09PerRunTypes,
+//                 internalState = the state object runCtx makes per run, cbHandler = built per call
+//                 by react.WithMessageFuture)
+//       captured  a local `var x sync.T`, `x := sync.T{}` / `&sync.T{}` / `new(sync.T)` /
+//                 `sync.NewCond(…)` / `make(chan …)` of a function, referenced inside a function
+//                 literal of that function that escapes its invocation (is stored, returned or
+//                 passed on – e.g. the runCtx closure compile() stores in the runner); a literal
+//                 that is called or started with `go` on the spot does not count
+//     Must be []: per-run allocation of everything a run locks or waits on means no run waits for
+//     another run of the same compiled object.
+
+var c09PerRunSyncTypes = map[string]string{
+	"internalState": "compose/state.go: &internalState{…} is made by the runCtx closure once per run",
+	"cbHandler":     "flow/agent/react/option.go: built per call by WithMessageFuture",
+}
+
+func c09IsSyncType(e ast.Expr) string {
+	if s, ok := e.(*ast.StarExpr); ok {
+		e = s.X
+	}
+	switch v := e.(type) {
+	case *ast.ChanType:
+		return "chan"
+	case *ast.SelectorExpr:
+		if id, ok := v.X.(*ast.Ident); ok && id.Name == "sync" {
+			switch v.Sel.Name {
+			case "Mutex", "RWMutex", "Cond", "WaitGroup":
+				return "sync." + v.Sel.Name
+			}
+		}
+	}
+	return ""
+}
+
+// the value expression itself makes a synchronisation object
+func c09IsSyncValue(e ast.Expr) string {
+	switch v := e.(type) {
+	case *ast.UnaryExpr:
+		if v.Op == token.AND {
+			return c09IsSyncValue(v.X)
+		}
+	case *ast.CompositeLit:
+		if v.Type != nil {
+			return c09IsSyncType(v.Type)
+		}
+	case *ast.CallExpr:
+		switch f := v.Fun.(type) {
+		case *ast.Ident:
+			if (f.Name == "make" || f.Name == "new") && len(v.Args) > 0 {
+				return c09IsSyncType(v.Args[0])
+			}
+		case *ast.SelectorExpr:
+			if id, ok := f.X.(*ast.Ident); ok && id.Name == "sync" && f.Sel.Name == "NewCond" {
+				return "sync.Cond"
+			}
+		}
+	}
+	return ""
+}
+
+func c09ObjectSyncFacts(r *Repo) []Fact {
+	var keys []string
+	var missing []string
+	for _, dir := range c09SyncPkgs {
+		p := r.Pkg(dir)
+		if len(p.Names) == 0 {
+			missing = append(missing, dir)
+			continue
+		}
+		// (a) struct fields
+		for _, n := range p.Names {
+			for _, d := range p.Files[n].Decls {
+				gd, ok := d.(*ast.GenDecl)
+				if !ok || gd.Tok != token.TYPE {
+					continue
+				}
+				for _, sp := range gd.Specs {
+					ts, ok := sp.(*ast.TypeSpec)
+					if !ok {
+						continue
+					}
+					st, ok := ts.Type.(*ast.StructType)
+					if !ok || st.Fields == nil {
+						continue
+					}
+					if _, perRun := c09PerRunTypes[ts.Name.Name]; perRun {
+						continue
+					}
+					if _, perRun := c09PerRunSyncTypes[ts.Name.Name]; perRun {
+						continue
+					}
+					for _, f := range st.Fields.List {
+						why := c09IsSyncType(f.Type)
+						if why == "" {
+							continue
+						}
+						names := []string{"<embedded>"}
+						if len(f.Names) > 0 {
+							names = nil
+							for _, id := range f.Names {
+								names = append(names, id.Name)
+							}
+						}
+						for _, fn := range names {
+							keys = append(keys, dir+"/"+n+":field:"+ts.Name.Name+"."+fn+":"+why)
+						}
+					}
+				}
+			}
+		}
+		// (b) locals captured by escaping closures
+		for _, fn := range p.Funcs() {
+			fd := fn.Decl
+			if fd.Body == nil {
+				continue
+			}
+			lits := c09EscapingLits(fd)
+			if len(lits) == 0 {
+				continue
+			}
+			locals := map[string]string{} // name -> why
+			inLit := func(pos token.Pos) bool {
+				for _, l := range lits {
+					if pos >= l.Pos() && pos <= l.End() {
+						return true
+					}
+				}
+				return false
+			}
+			ast.Inspect(fd.Body, func(x ast.Node) bool {
+				switch v := x.(type) {
+				case *ast.DeclStmt:
+					if inLit(v.Pos()) {
+						return true
+					}
+					if gd, ok := v.Decl.(*ast.GenDecl); ok && gd.Tok == token.VAR {
+						for _, sp := range gd.Specs {
+							vs, ok := sp.(*ast.ValueSpec)
+							if !ok {
+								continue
+							}
+							for i, id := range vs.Names {
+								why := ""
+								if vs.Type != nil {
+									why = c09IsSyncType(vs.Type)
+								}
+								if why == "" && i < len(vs.Values) {
+									why = c09IsSyncValue(vs.Values[i])
+								}
+								if why != "" {
+									locals[id.Name] = why
+								}
+							}
+						}
+					}
+				case *ast.AssignStmt:
+					if v.Tok != token.DEFINE || inLit(v.Pos()) || len(v.Lhs) != len(v.Rhs) {
+						return true
+					}
+					for i, l := range v.Lhs {
+						if id, ok := l.(*ast.Ident); ok {
+							if why := c09IsSyncValue(v.Rhs[i]); why != "" {
+								locals[id.Name] = why
+							}
+						}
+					}
+				}
+				return true
+			})
+			if len(locals) == 0 {
+				continue
+			}
+			seen := map[string]bool{}
+			for _, l := range lits {
+				ast.Inspect(l.Body, func(x ast.Node) bool {
+					id, ok := x.(*ast.Ident)
+					if !ok {
+						return true
+					}
+					why, isLocal := locals[id.Name]
+					if !isLocal || seen[id.Name] {
+						return true
+					}
+					// resolved to the declaration outside the literal (not a shadowing local of the literal)
+					if id.Obj != nil {
+						if dp := id.Obj.Pos(); dp >= l.Pos() && dp <= l.End() {
+							return true
+						}
+					}
+					seen[id.Name] = true
+					keys = append(keys, dir+"/"+fn.File+":"+c09FuncName(fd)+":captured:"+id.Name+":"+why)
+					return true
+				})
+			}
+		}
+	}
+	sort.Strings(keys)
+	f := Fact{Name: "compiledObjectSync", Type: "List String", Value: c09StrList(keys),
+		Where: "channels / sync.Mutex / RWMutex / Cond / WaitGroup that are struct fields of a non-per-run type, or locals of a function captured by a closure that escapes it (e.g. a closure compile() stores in the runner), in " + strings.Join(c09SyncPkgs, ", ") + " (must be []: nothing a run locks or waits on belongs to the compiled object)"}
+	if len(missing) > 0 {
+		f.Unknown = true
+		f.Note = "packages not found: " + strings.Join(missing, ", ")
+	}
+	return []Fact{f}
+}
